@@ -53,6 +53,34 @@ H('k2_default_deadline_ten_seconds', 'deadline_codec', ['tarpc/src/context.rs::t
   'default deadline == now + 10 s', stubs=CLK)
 
 
+# ---- K4 request hooks (C19)
+H('k4_hook_then_serve', 'hooks', ['tarpc/src/server/request_hook/before.rs::HookThenServe::serve', 'tarpc/src/server/request_hook.rs::RequestHook::before'],
+  'handler runs iff the before-hook passed, with the hook-produced context; result unchanged; hook error is the response (nondeterministic hook and handler)')
+H('k4_serve_then_hook', 'hooks', ['tarpc/src/server/request_hook/after.rs::ServeThenHook::serve', 'tarpc/src/server/request_hook.rs::RequestHook::after'],
+  'after-hook runs exactly once after the wrapped serve (also on error) and what it leaves in the result is returned')
+H('k4_before_and_after', 'hooks', ['tarpc/src/server/request_hook/before_and_after.rs::HookThenServeThenHook::serve', 'tarpc/src/server/request_hook.rs::RequestHook::before_and_after'],
+  'combined hook: after part skipped when before part fails; else sees the context its before part produced')
+H('k4_chain_api_order_and_short_circuit', 'hooks', ['tarpc/src/server/request_hook/before.rs::BeforeRequestCons::before', 'tarpc/src/server/request_hook/before.rs::BeforeRequestCons::then', 'tarpc/src/server/request_hook/before.rs::BeforeRequestNil::then', 'tarpc/src/server/request_hook/before.rs::BeforeRequestCons::serving'],
+  'before().then(h1).then(h2).serving(s): h1 then h2 then handler, context threaded, first failure stops the chain')
+H('k4_empty_chain_is_identity', 'hooks', ['tarpc/src/server/request_hook/before.rs::BeforeRequestNil::before', 'tarpc/src/server/request_hook/before.rs::BeforeRequestNil::serving', 'tarpc/src/server/request_hook/before.rs::before'],
+  'chain length 0: before().serving(s) behaves as s; the empty list passes and changes nothing')
+H('k4_after_wraps_inner_before_error', 'hooks', ['tarpc/src/server/request_hook/after.rs::ServeThenHook::serve', 'tarpc/src/server/request_hook/before.rs::HookThenServe::serve'],
+  'nesting after(before(s)): the after-hook runs exactly once also on an inner before-hook error')
+H('k4_cons_first_then_rest_any_rest', 'hooks_before', ['tarpc/src/server/request_hook/before.rs::BeforeRequestCons::before'],
+  'induction step: Cons(first, rest) for an arbitrary rest: first then (only if Ok) rest, rest sees first\'s context, first error returned')
+# ---- K5 stubs (C20)
+H('k5_cycle_next_is_counter_mod_len', 'cycle', ['tarpc/src/client/stub/load_balance.rs::round_robin::cycle::State::next'],
+  'next() returns element counter % len and advances the counter by one (wrapping); full domain in the counter',
+  bounded='backend count enumerated 1..=4 (the index arithmetic itself is width-independent)')
+H('k5_round_robin_call_uses_next', 'round_robin', ['tarpc/src/client/stub/load_balance.rs::RoundRobin::call', 'tarpc/src/client/stub/load_balance.rs::RoundRobin::new'],
+  'successive calls go to backends 0,1,2,0; request and result pass through', bounded='3 backends, 4 calls')
+H('k5_consistent_hash_valid_and_stable', 'consistent_hash', ['tarpc/src/client/stub/load_balance.rs::ConsistentHash::with_hasher', 'tarpc/src/client/stub/load_balance.rs::ConsistentHash::call', 'tarpc/src/client/stub/load_balance.rs::ConsistentHash::hash_request'],
+  'picks only a valid backend (no panic), backend == hash(request) % len, equal requests -> same backend; symbolic hash function',
+  bounded='backend count enumerated 1..=3', timeout=1200)
+H('k5_serve_as_stub_passes_through', 'stub_serve', ['tarpc/src/client/stub.rs::<S as Stub>::call'],
+  'a Serve used as a Stub is served exactly once with the same context and request; ServerError becomes RpcError::Server')
+
+
 def _tree_hash():
     h = hashlib.sha256()
     roots = [os.path.join(REPO, 'tarpc', 'src'), os.path.join(REPO, 'plugins', 'src'), os.path.join(VERIF, 'kani')]
